@@ -3,6 +3,7 @@ from ..export import AnalysisBroken
 from ..ir import strip_casts, const_of, walk, show, kids
 from ..graph import find_path, ret_class, ev_dominates, control_deps_transitive, block_dominates
 from .common import compare_info, exceptions
+from .. import df
 
 EXPL = ('Read-only by construction: mode "r" maps to O_RDONLY, every reader/copy open passes the literal "r" except the one on the '
         'not-closed branch, the "r" arm never enables writing; guarded reachability of the write primitive from reader roots (only '
@@ -14,6 +15,12 @@ NOT_DECIDED = 'Equality of results between the repairing open and later opens.'
 def run(ctx, sess):
     ctx.explanation = EXPL
     ctx.not_decided = NOT_DECIDED
+    ctx.rule('C19.6', 'what a later open derives from the file is not pre-computed differently by the repairing open: the cached signal length is stored only by the length walk (and reset by the track constructor), and the writer-side sample id offset of a track is read only by the FSR writer module (readers and repair use the offset of the signal definition)')
+    ctx.rule('C19.5', 'a repaired file is a well-formed closed file: END is appended at the end of the file (shared with C03.j)')
+    from .common import relay
+    from . import c03 as _src_c03
+    relay(ctx, sess, _src_c03.run, {'C03.j': 'C19.5'})
+    ownership_rule(ctx, sess.prog('default'))
     P = sess.prog('default')
     ctx.rule('C19.1', 'read-only by construction: "r" -> O_RDONLY; reader and copy open with "r" except on the not-closed branch; the "r" arm of jls_raw_open does not enable writing')
     ctx.rule('C19.2', 'guarded reachability: from reader API roots the write primitive is reachable only through jls_rd_open or through close paths guarded by buffers that only writer/repair code allocates')
@@ -179,3 +186,36 @@ def run(ctx, sess):
                 return self.ctx.ob('C19.3', ok, fn, construct, where, detail, witness)
             return ok
     rb(Sub(ctx), P)
+
+
+def ownership_rule(ctx, P):
+    n = 0
+    for fn in P.all_functions():
+        for ev in fn.stores():
+            lhs, rhs, o = ev.store_parts()
+            l0 = strip_casts(lhs)
+            tgt = None
+            if l0.get('op') == 'member' and l0.get('field') == 'signal_length' and l0.get('rec') == 'jls_core_fsr_s':
+                tgt = l0
+            elif l0.get('op') == 'un' and l0.get('o') == '*':
+                r_ = df.resolve_local(fn, l0['k'][0], ev.block, ev.idx)
+                if r_ is not None and any(nd.get('op') == 'member' and nd.get('field') == 'signal_length' and nd.get('rec') == 'jls_core_fsr_s' for nd in walk(r_)):
+                    tgt = r_
+            if tgt is None:
+                continue
+            n += 1
+            ctx.saw(fn, 1)
+            ok = fn.name in ('jls_fsr_open', 'jls_core_fsr_length')
+            ctx.ob('C19.6', ok, fn.name, 'store to the cached signal length', ev.where(),
+                   'the length walk / the constructor' if ok else
+                   'the signal length cache is filled outside jls_core_fsr_length: the open that stores it and a later open that walks the file can disagree')
+        for b in fn.blocks.values():
+            for e in [ev.e for ev in b.events if ev.e is not None] + ([b.cond] if b.cond is not None else []):
+                for nd in walk(e):
+                    if nd.get('op') == 'member' and nd.get('field') == 'sample_id_offset' and nd.get('rec') == 'jls_core_fsr_s':
+                        n += 1
+                        ok = fn.file == 'src/wr_fsr.c'
+                        ctx.ob('C19.6', ok, fn.name, 'use of the writer-side sample_id_offset', '%s:%d' % (fn.file, nd.get('ln', b.line)),
+                               'FSR writer module' if ok else
+                               'jls_core_fsr_s.sample_id_offset is only set by the FSR writer on its first sample; in a reader or in repair it is 0, the offset of the signal is signal_def.sample_id_offset')
+    ctx.floor('uses of the length cache and the writer-side offset', n, 4)
